@@ -10,6 +10,9 @@ args = sys.argv[1:]
 jobs = 6
 if args and args[0] == "-j":
     jobs = int(args[1]); args = args[2:]
+jsonout = None
+if args and args[0] == "--json":
+    jsonout = args[1]; args = args[2:]
 ids = args
 env = dict(os.environ, GOFLAGS="-mod=mod", GOPROXY="off", GOSUMDB="off", GOTOOLCHAIN="local")
 env.pop("GOWORK", None)
@@ -23,7 +26,10 @@ def variants():
         also = []
         mp = os.path.join(os.path.dirname(p), "meta.json")
         if os.path.exists(mp):
-            also = json.load(open(mp)).get("also_checked_by", [])
+            meta = json.load(open(mp))
+            if meta.get("obsolete"):
+                continue  # no longer breaks the property on the repaired tree; see meta.json
+            also = meta.get("also_checked_by", [])
         out.append((pid, "seeded-" + d, p))
         for a in also:
             out.append((a, "seeded-" + d, p))
@@ -58,4 +64,6 @@ for pid, name, st, info in res:
         bad += 1
     print(f"{pid:4} {st:24} {name}\n       {info}")
 print(f"variants: {len(res)}, not detected: {bad}")
+if jsonout:
+    json.dump([{"property": a, "variant": b, "status": c, "info": d[:300]} for a, b, c, d in res], open(jsonout, "w"), indent=1)
 sys.exit(1 if bad else 0)
